@@ -113,6 +113,57 @@ def _assign(l, rv, line):
     return {"k": "assign", "lhs": lhs, "rv": rv, "line": line, "exp": False}
 
 
+def thread_jumps(body, rounds=4):
+    """Jump threading for flag locals: `X = const c; goto T` where T only copies X around and then switches on it is
+    redirected to the switch target selected by c.  The expansions above produce exactly this shape (`dest = true; goto
+    T`), and without threading the CFG would contain infeasible paths from the `true` exit to the `false` arm."""
+    blocks = body["blocks"]
+    for _ in range(rounds):
+        changed = False
+        for b in blocks:
+            t = b["term"]
+            if t["k"] != "goto":
+                continue
+            T = blocks[t["t"]]
+            if T is b or T["term"]["k"] != "switch" or T["cleanup"] != b["cleanup"]:
+                continue
+            op = T["term"]["op"]
+            if op["k"] not in ("copy", "move") or op["pl"]["p"]:
+                continue
+            src = op["pl"]["l"]
+            ok = True
+            for st in reversed(T["stmts"]):
+                if st["k"] == "dead":
+                    continue
+                if st["k"] == "assign" and not st["lhs"]["p"] and st["rv"]["k"] == "use" and st["rv"]["op"]["k"] in ("copy", "move") \
+                        and not st["rv"]["op"]["pl"]["p"]:
+                    if st["lhs"]["l"] == src:
+                        src = st["rv"]["op"]["pl"]["l"]
+                    continue
+                ok = False
+                break
+            if not ok:
+                continue
+            val = None
+            for st in reversed(b["stmts"]):
+                if st["k"] == "assign" and st["lhs"]["l"] == src:
+                    if not st["lhs"]["p"] and st["rv"]["k"] == "use" and st["rv"]["op"]["k"] == "const" and isinstance(st["rv"]["op"].get("v"), int):
+                        val = st["rv"]["op"]["v"]
+                    break
+            if val is None:
+                continue
+            sw = T["term"]
+            tgt = sw["otherwise"]
+            for v, tg in zip(sw["vals"], sw["tgts"]):
+                if v == val:
+                    tgt = tg
+            b["stmts"].extend(copy.deepcopy(T["stmts"]))
+            b["term"] = {"k": "goto", "t": tgt, "line": t.get("line", 0), "exp": False}
+            changed = True
+        if not changed:
+            break
+
+
 class Inliner:
     def __init__(self, fb, policy, max_depth=4, combinators=True, skip_combinators=("map_err",), src=None):
         self.fb = fb
@@ -143,6 +194,8 @@ class Inliner:
                 if self._try_combinator(i, b, t) or self._try_direct(i, b, t):
                     continue  # re-examine the same block index (its terminator is now a goto) -> moves on next iteration
             i += 1
+        if self.inlined:
+            thread_jumps(body)
         rec = dict(fn.rec)
         rec["body"] = body
         rec["promoted"] = promoted
@@ -229,6 +282,13 @@ class Inliner:
         """Closure key + the operand holding the closure value, if `op` is a crate-local closure."""
         if op["k"] == "const":
             k = op.get("closure")
+            if k is None and "fn" in op:
+                # a function item used as the callback (`opt.map(helper)`): treated like a capture-less closure
+                fk = resolved(op["fn"]).get("key")
+                fobj = self.src.get(fk)
+                if fobj is not None and self.policy(fobj, 0):
+                    return fk, op
+                return None, None
             return (k, op) if k in self.src else (None, None)
         pl = op["pl"]
         if pl["p"]:
@@ -261,6 +321,9 @@ class Inliner:
     def _call_closure(self, blk, ckey, cop, vals, dest_local, target, unwind, line):
         """Terminate block `blk` with an inlined invocation of closure `ckey` (value operand `cop`) on `vals`."""
         cl = self.src[ckey]
+        if cl.rec.get("dk") != "Closure":
+            self._splice(blk, cl, vals, {"l": dest_local, "p": []} if dest_local is not None else None, target, unwind, line)
+            return
         envty = cl.locals[1]["ty"] if len(cl.locals) > 1 else ""
         b = self.blocks[blk]
         if envty.startswith("&"):
@@ -316,6 +379,8 @@ class Inliner:
             return False
         tmpl["build"](self, i, t, cls)
         self.inlined.append("<%s::%s>" % (kind, name))
+        for ck, _cop in cls.values():
+            self.absorbed.add(ck)
         return True
 
 
